@@ -32,13 +32,13 @@ Definition records_of_epm (rs : list record) : res (list record) :=
 
 (* from_jsonld *)
 Inductive term := TStr (s : str) | TPrefix (id : str) | TOther.
+(* not key -> skipped with a warning; key.startswith("@") -> skipped *)
+Definition jsonld_key_ok (k : str) : bool := match k with [] => false | c :: _ => negb (N.eqb c 64) end.
 Definition jsonld_prefix_map (ctx : list (str * term)) : list (str * str) :=
   fold_left (fun pm kt =>
-    match fst kt with
-    | [] => pm                                  (* empty key: warning, skipped *)
-    | 64%N :: _ => pm                           (* '@...' keyword *)
-    | _ => match snd kt with TStr s => dset (fst kt) s pm | TPrefix id => dset (fst kt) id pm | TOther => pm end
-    end) ctx [].
+    if jsonld_key_ok (fst kt)
+    then match snd kt with TStr s => dset (fst kt) s pm | TPrefix id => dset (fst kt) id pm | TOther => pm end
+    else pm) ctx [].
 Definition records_of_jsonld (ctx : list (str * term)) : res (list record) := records_of_prefix_map (jsonld_prefix_map ctx).
 
 (* upgrade_prefix_map: group CURIE prefixes by URI prefix; sorted prefixes: first canonical; groups sorted by URI prefix *)
